@@ -57,7 +57,8 @@ UnaryOps(nv) ==
               sp \in {None, <<CNeg1, 3>>, <<1, 2>>}}
     \cup {<<"extrap", f, rho, c, lh[1], lh[2]>> : f \in Forms, rho \in {<<1>>, <<2, CNeg1>>}, c \in {0, 1},
               lh \in {<<1, 2>>, <<3, 4>>, <<2, 2>>}}
-    \cup {<<"copy">>}
+    \cup {<<"copy">>, <<"rebuild">>}
+    \cup {<<"rw", "neg", 0>>, <<"rw", "pos", NaN>>}
 
 BinaryOps ==
          {<<"overlay", f>> : f \in Forms} \cup {<<"underlay", f>> : f \in Forms}
